@@ -50,11 +50,14 @@ struct completion
         ++b_completions;
     }
 };
+#ifndef NPHASE
+#define NPHASE 2
+#endif
 static pika::barrier<completion>* bar;
 extern "C" void bar_init() { bar = new pika::barrier<completion>(NPART); }
 static void bar_party()
 {
-    for (int ph = 0; ph < 2; ++ph)
+    for (int ph = 0; ph < NPHASE; ++ph)
     {
         ++b_arrived[ph];
         bar->arrive_and_wait();
@@ -69,7 +72,39 @@ extern "C" void bar_thread_2() { bar_party(); }
 #endif
 extern "C" void bar_final()
 {
-    verif_assert(b_completions == 2, "completion function ran exactly once per phase");
+    verif_assert(b_completions == NPHASE, "completion function ran exactly once per phase");
+    verif_cover(0);
+}
+
+// ---- barrier with arrive_and_drop: party 0 leaves after phase 0, party 1 goes on alone ------------------------------
+static int d_arrived0, d_completions;
+struct completion_d
+{
+    void operator()() noexcept
+    {
+        if (d_completions == 0) verif_assert(d_arrived0 == 2, "completion of phase 0 runs only after both participants arrived");
+        ++d_completions;
+    }
+};
+static pika::barrier<completion_d>* bard;
+extern "C" void bard_init() { bard = new pika::barrier<completion_d>(2); }
+extern "C" void bard_thread_0()
+{
+    ++d_arrived0;
+    bard->arrive_and_drop();    // counts as an arrival of phase 0 and lowers the expected count of every later phase
+}
+extern "C" void bard_thread_1()
+{
+    ++d_arrived0;
+    bard->arrive_and_wait();
+    verif_assert(d_arrived0 == 2, "nobody leaves phase 0 before the dropping participant arrived");
+    verif_assert(d_completions >= 1, "the completion function ran before anyone was released");
+    bard->arrive_and_wait();    // phase 1 has one participant left: must complete without anyone else
+    verif_assert(d_completions >= 2, "phase 1 completes with the remaining participant only");
+}
+extern "C" void bard_final()
+{
+    verif_assert(d_completions == 2, "completion function ran exactly once per phase");
     verif_cover(0);
 }
 
